@@ -1,5 +1,6 @@
 import Momo.Proof.BTreeHistory
 import Momo.Proof.TrEqMisc
+import Momo.Proof.TrEqWave2Tree
 /-!
 # C02 — B-tree set/map always equals the abstract sorted (multi)sequence
 
@@ -269,5 +270,86 @@ theorem C02_splitIdx_translated (itemCount newItemIndex : Nat) :
   TrEq.tr_splitIdx itemCount newItemIndex
 
 example : Tr.tree_GetSplitItemIndex 8 2 = 3 ∧ Tr.tree_GetSplitItemIndex 8 5 = 4 := by decide
+
+/-! #### second wave (area Wave2, lean/Momo/Translated/Wave2.lean; proofs in Proof/TrEqWave2Tree.lean) -/
+
+/-- **Node capacities come from the header text.** The capacity the real `Node::Create(params, isLeaf, count)` gives a node —
+`pvGetLeafMemPoolIndex` (first-pool rule, `(maxCapacity - count) / capacityStep` clamped to `leafMemPoolCount - 1`), the
+constructor's `static_cast<uint8_t>`, `IsLeaf()`, `GetCapacity()`, all translated from details/TreeNode.h — is the model's
+`leafCap` for a leaf and `maxCapacity` (`capOf` of an internal node) for an internal node, for every legal instantiation
+(`maxCapacity < 256` is the static assertion of the class, `count ≤ maxCapacity` the assertion of `Create`). -/
+theorem C02_node_capacity_translated (cfg : Cfg) (bc ia count : Nat) (hM : cfg.maxCap < 256) (hs0 : 0 < cfg.step)
+    (hs : cfg.step < 2 ^ 63) (hc : count ≤ cfg.maxCap) (hb : cfg.blockGt1 = decide (bc > 1)) :
+    Tr.tree_leafMemPoolCount cfg.maxCap cfg.step = lastLeafPool cfg + 1 ∧
+    Tr.tree_GetCapacity cfg.maxCap cfg.step
+        (Tr.tree_ctorMemPoolIndex (Tr.tree_pvGetLeafMemPoolIndex cfg.maxCap cfg.step bc ia count)) = leafCap cfg ia count ∧
+    Tr.tree_IsLeaf cfg.maxCap cfg.step (Tr.tree_ctorMemPoolIndex (Tr.tree_internalMemPoolIndex cfg.maxCap cfg.step)) = false ∧
+    Tr.tree_GetCapacity cfg.maxCap cfg.step (Tr.tree_ctorMemPoolIndex (Tr.tree_internalMemPoolIndex cfg.maxCap cfg.step))
+      = capOf cfg (Node.inner ([] : List Nat) []) :=
+  ⟨TrEq.tr_tree_leafMemPoolCount cfg hs (by omega), TrEq.tr_tree_leafCap cfg bc ia count hM hs hc hb,
+   TrEq.tr_tree_innerCap cfg hM hs0 hs⟩
+
+/-- **`pvAdd` at a leaf, written with the code of the headers.** The model's `addLeaf` (about which `C02_hinted_add` and the
+history theorem speak) is the case analysis of the real `pvAdd` with every test (`itemCount < GetCapacity()`,
+`itemCount < nodeMaxCapacity`, `newItemIndex <= splitItemIndex`), the split point (`GetSplitItemIndex`), every node size
+handed to `CreateNode` by `GrowLeafNode` / `pvSplitNode` and the new item's index in the right half taken from the
+translated TreeSet.h / TreeNode.h. -/
+theorem C02_add_leaf_translated {α : Type} (cfg : Cfg) (ia cap : Nat) (items : List α) (i : Nat) (x : α)
+    (hn : items.length < 2 ^ 64 - 1) :
+    addLeaf cfg ia cap items i x =
+      if Tr.tree_add_fits items.length cap = true then .ok (.leaf cap (items.insertIdx i x)) ⟨[], i⟩
+      else if Tr.tree_add_grows items.length cfg.maxCap = true then
+        .ok (.leaf (leafCap cfg ia (Tr.tree_grow_count items.length)) (items.insertIdx i x)) ⟨[], i⟩
+      else if Tr.tree_split_left i (Tr.tree_GetSplitItemIndex items.length i) = true then
+        match (items.insertIdx i x)[Tr.tree_GetSplitItemIndex items.length i + 1]? with
+        | some sep => .split
+            (.leaf (leafCap cfg ia (Tr.tree_split_count1L (Tr.tree_GetSplitItemIndex items.length i)))
+              ((items.insertIdx i x).take (Tr.tree_GetSplitItemIndex items.length i + 1)))
+            sep
+            (.leaf (leafCap cfg ia (Tr.tree_split_count2L items.length (Tr.tree_GetSplitItemIndex items.length i)))
+              ((items.insertIdx i x).drop (Tr.tree_GetSplitItemIndex items.length i + 2)))
+            false ⟨[], i⟩
+        | none => .ok (.leaf cap items) ⟨[], i⟩
+      else
+        match (items.insertIdx i x)[Tr.tree_GetSplitItemIndex items.length i]? with
+        | some sep => .split
+            (.leaf (leafCap cfg ia (Tr.tree_split_count1R (Tr.tree_GetSplitItemIndex items.length i)))
+              ((items.insertIdx i x).take (Tr.tree_GetSplitItemIndex items.length i)))
+            sep
+            (.leaf (leafCap cfg ia (Tr.tree_split_count2R items.length (Tr.tree_GetSplitItemIndex items.length i)))
+              ((items.insertIdx i x).drop (Tr.tree_GetSplitItemIndex items.length i + 1)))
+            true ⟨[], Tr.tree_split_newIndexR i (Tr.tree_GetSplitItemIndex items.length i)⟩
+        | none => .ok (.leaf cap items) ⟨[], i⟩ :=
+  TrEq.addLeaf_translated cfg ia cap items i x hn
+
+/-- **The merge test of `pvRebalance`, from the header text.** The model's `tryMerge … i` (the step `C02_rebalance_preserves`
+and the removal theorems are about) is the real `pvRebalance(parentNode, i + 1, savedNode)`: it gives up on the translated
+`index == 0 || index > GetCount()`, works on the pair at the translated `--index`, and merges exactly when the translated
+`itemCount1 + itemCount2 + 1 > node1->GetCapacity()` is false (and the right node is not the saved one). -/
+theorem C02_merge_test_translated {α : Type} (cfg : Cfg) (items : List α) (cs : List (Node α)) (i : Nat) (saved : Option (List Nat))
+    (hi : i < items.length) (hcs : cs.length = items.length + 1) (hcnt : ∀ n ∈ cs, n.count < 2 ^ 63) :
+    tryMerge cfg items cs i saved =
+      if Tr.tree_reb_noPair (i + 1) items.length = true then none
+      else
+        match items[Tr.tree_reb_leftIndex (i + 1)]?, cs[Tr.tree_reb_leftIndex (i + 1)]?, cs[Tr.tree_reb_leftIndex (i + 1) + 1]? with
+        | some sep, some n1, some n2 =>
+          if saved = some [Tr.tree_reb_leftIndex (i + 1) + 1] then none
+          else if Tr.tree_reb_tooBig n1.count n2.count (capOf cfg n1) = true then none
+          else some (.inner (items.eraseIdx (Tr.tree_reb_leftIndex (i + 1)))
+                      (cs.take (Tr.tree_reb_leftIndex (i + 1)) ++ mergeNodes n1 sep n2 :: cs.drop (Tr.tree_reb_leftIndex (i + 1) + 2)),
+                     saved.map (mergeSaved (Tr.tree_reb_leftIndex (i + 1)) n1.count))
+        | _, _, _ => none :=
+  TrEq.tryMerge_translated cfg items cs i saved hi hcs hcnt
+
+/-- **The in-node binary search, from the header text (the whole loop).** The binary-search branch of the real
+`pvFindFirst(node, pred)` — `leftIndex`, `rightIndex`, `middleIndex = (leftIndex + rightIndex) / 2`, the `while` loop — run on the
+answers of the predicate is the model's `findIn false` (= `findBin`), the function `C02_bounds` / `C02_find_contains` are about. -/
+theorem C02_find_bin_translated {α : Type} (p : α → Bool) (items : List α) (pred : Nat → Nat)
+    (hpred : ∀ i (h : i < items.length), pred i ≠ 0 ↔ p items[i] = true) (hlen : items.length < 2 ^ 63) :
+    Tr.tree_findFirst_bin pred items.length = Node.findIn false p items :=
+  TrEq.tr_tree_findFirst_bin p items pred hpred hlen
+
+example : Tr.tree_GetCapacity 32 4 (Tr.tree_ctorMemPoolIndex (Tr.tree_pvGetLeafMemPoolIndex 32 4 8 2 5)) = 16
+    ∧ Tr.tree_leafMemPoolCount 32 4 = 5 ∧ Tr.tree_findFirst_bin (fun i => if i ≥ 3 then 1 else 0) 7 = 3 := by decide
 
 end Momo.BTree
